@@ -1,7 +1,7 @@
 """C18 — real-time polling (the poller's own discipline; delivery order over all upload histories is not decided)."""
 from nx import sym, loops, panics
 from nx.spec import *
-from rules import common, c16, c17, c05
+from rules import common, c16, c17, c05, c15
 
 LEVEL = "other"
 R = "nexrad_data::aws::realtime::"
@@ -152,7 +152,11 @@ def run(chk, tier):
         c17.download_object(chk, prog, T[3])
         c17.last_modified(chk, prog)
         c17.realtime_download(chk, prog, T[0])
+        # "starting at the newest chunk present at start": the start-up listing (C17) and the latest-volume wiring (C15)
+        c17.list_objects(chk, prog, T[4], T[5])
+        c17.realtime_listing(chk, prog, T[2])
     c05.chunk_sniffing(chk, prog)
+    c15.glv(chk, prog)
 
 
 def first_delivery(chk, prog, fn, lp, names, site, tx):
